@@ -67,6 +67,10 @@ class Ctx:
         self._results: dict = {}
         self.info: list[str] = []
 
+    def live_walk(self, tree):
+        """ast.walk over a module without the definitions of helpers that were spliced into their callers (dead code now)"""
+        return _walk_skipping(tree, getattr(self.repo, "dead_nodes", set()))
+
     # ------------------------------------------------------------------ anchors
     def fn(self, qual: str, hint: str | None = None) -> Func:
         f = self.repo.func(qual, hint)
@@ -439,7 +443,8 @@ def _inline_return_temps(fn):
 
 # ----------------------------------------------------------------------------- inlining of freshly extracted helpers
 _PROTECTED: set | None = None
-INLINE_ALWAYS = {"_restart_cancellation_in_parent", "_notify_next_waiter"}
+_HOIST = [0]
+INLINE_ALWAYS = {"_restart_cancellation_in_parent", "_notify_next_waiter", "_check_acquired"}
 
 
 def _protected_names() -> set:
@@ -625,6 +630,19 @@ def _known_methods():
     return {k: {m.split("@")[0] for m in v} for k, v in json.load(open(path)).items()}
 
 
+def clone_expr(e):
+    from .source import clone
+    return clone(e)
+
+
+def clone_args(a):
+    from .source import clone
+    c = clone(a)
+    for x in c.posonlyargs + c.args:
+        x.annotation = None
+    return c
+
+
 def _known_classes():
     """(classes of the reference tree, their public method names)"""
     import json
@@ -684,7 +702,7 @@ def _helper_candidates(repo: Repo, prot: set):
             if known is None or name in known.get(f.module, ()) or name in occ:
                 continue
         decos = [ast.unparse(d) for d in h.decorator_list]
-        if decos not in ([], ["staticmethod"]):
+        if decos not in ([], ["staticmethod"], ["classmethod"]):
             continue
         if len(repo.funcs.get(f.qual, [])) != 1:
             continue
@@ -708,6 +726,19 @@ def _helper_candidates(repo: Repo, prot: set):
         ok = True
         for at in sites:
             call = getattr(at, "_parent", None)
+            if not is_method and isinstance(at.ctx, ast.Load) and isinstance(call, ast.Call) and call.func is not at and any(a_ is at for a_ in call.args) \
+                    and len(body) == 1 and isinstance(body[0], ast.Return) and body[0].value is not None and not isinstance(h, ast.AsyncFunctionDef) \
+                    and not (h.args.vararg or h.args.kwarg or h.args.kwonlyargs or h.args.defaults) and repo.func_of(at) is not None \
+                    and repo.func_of(at).module == f.module and repo.func_of(at).node is not h:
+                # the one-expression helper is passed as a function (`exc.split(_pred)`): that is `lambda <params>: <expr>`
+                lam = ast.copy_location(ast.Lambda(args=clone_args(h.args), body=clone_expr(body[0].value)), at)
+                call.args[[a_ is at for a_ in call.args].index(True)] = lam
+                ast.fix_missing_locations(lam)
+                lam._parent = call
+                for par_ in ast.walk(lam):
+                    for ch_ in ast.iter_child_nodes(par_):
+                        ch_._parent = par_
+                continue
             if not (isinstance(call, ast.Call) and call.func is at and isinstance(at.ctx, ast.Load)):
                 ok = False
                 break
@@ -716,7 +747,12 @@ def _helper_candidates(repo: Repo, prot: set):
                 ok = False
                 break
             if is_method:
-                own = isinstance(at.value, ast.Name) and at.value.id == "self" and caller.cls == f.cls
+                own = isinstance(at.value, ast.Name) and at.value.id == "self" and caller.cls == f.cls \
+                    and [ast.unparse(d_) for d_ in h.decorator_list] != ["classmethod"]
+                if not own and isinstance(at.value, ast.Name) and at.value.id == "cls" and caller.cls == f.cls \
+                        and [ast.unparse(d_) for d_ in h.decorator_list] == ["classmethod"] \
+                        and any(ast.unparse(d_) == "classmethod" for d_ in caller.node.decorator_list):
+                    own = True       # a class method calling a sibling class method: `cls` is the same object in both
                 if not own:
                     # "move method": a private method that did not exist in the reference tree, defined once in the package and
                     # called through a pure attribute chain (`self._state._release()`): spliced in with `self` := the receiver
@@ -756,8 +792,47 @@ def _helper_candidates(repo: Repo, prot: set):
             elif isinstance(st, ast.While) and st.test is outer and not st.orelse:
                 shape = "wtest"          # `while h(): body` is `while True: r = h(); if not r: break; body`
             else:
-                ok = False
-                break
+                # the call sits deeper inside a simple statement (`return h() is not None`, `x = f(h())`, `if h() > 0:`): hoisted into a
+                # temporary in front of it, provided nothing with an effect is evaluated before the call in that statement
+                host = outer
+                while host is not None and not isinstance(host, ast.stmt):
+                    host = getattr(host, "_parent", None)
+                hoistable = isinstance(host, (ast.Return, ast.Assign, ast.AnnAssign, ast.Expr, ast.If)) and not awaited and any(r_.value is not None for r_ in rets)
+                if hoistable:
+                    region = host.test if isinstance(host, ast.If) else host
+                    for x in _eval_order(region):
+                        if x is call:
+                            break
+                        if isinstance(x, ast.Attribute) and _simple_arg(x):
+                            continue
+                        if not isinstance(x, (ast.Name, ast.Constant)):
+                            hoistable = False
+                            break
+                    else:
+                        hoistable = False
+                hold = getattr(host, "_parent", None) if hoistable else None
+                blk_h = next((getattr(hold, fl) for fl in ("body", "orelse", "finalbody") if isinstance(getattr(hold, fl, None), list) and host in getattr(hold, fl)), None) \
+                    if hoistable else None
+                if blk_h is None:
+                    ok = False
+                    break
+                _HOIST[0] += 1
+                tmpn = f"_hoisted__{name.strip('_')}_{_HOIST[0]}"
+                par_c = getattr(call, "_parent", None)
+                nmnode = ast.copy_location(ast.Name(id=tmpn, ctx=ast.Load()), call)
+                for f_, val in ast.iter_fields(par_c):
+                    if val is call:
+                        setattr(par_c, f_, nmnode)
+                    elif isinstance(val, list) and any(y is call for y in val):
+                        val[[y is call for y in val].index(True)] = nmnode
+                nmnode._parent = par_c
+                asg = ast.copy_location(ast.Assign(targets=[ast.Name(id=tmpn, ctx=ast.Store())], value=call), host)
+                ast.fix_missing_locations(asg)
+                blk_h.insert(blk_h.index(host), asg)
+                asg._parent = hold
+                call._parent = asg
+                asg.targets[0]._parent = asg
+                st, shape = asg, "assign"
             plans.append((caller, call, st, shape, awaited))
         if not ok:
             continue
@@ -797,7 +872,7 @@ def inline_fresh_helpers(repo: Repo, max_inlines: int = 200) -> list[str]:
             prot.add(name)
             continue
         allp = [x.arg for x in a.posonlyargs + a.args]
-        params = allp if (h.decorator_list or f.cls is None) else allp[1:]
+        params = allp if (([ast.unparse(d_) for d_ in h.decorator_list] == ["staticmethod"]) or f.cls is None) else allp[1:]
         defaults = dict(zip(reversed(allp), reversed(a.defaults))) if a.defaults else {}
         kwonly = {x.arg: d for x, d in zip(a.kwonlyargs, a.kw_defaults)}
         stored = {x.id for s_ in body for x in ast.walk(s_) if isinstance(x, ast.Name) and isinstance(x.ctx, (ast.Store, ast.Del))}
@@ -941,6 +1016,8 @@ def inline_fresh_helpers(repo: Repo, max_inlines: int = 200) -> list[str]:
                             # that the caller's branch on res carries the facts of <cond> (a "decide" helper returning a bool)
                             mk = lambda v_: ast.copy_location(ast.Assign(targets=[ast.Name(id=res, ctx=ast.Store())], value=ast.Constant(v_)), s2)
                             out.append(ast.copy_location(ast.If(test=s2.value, body=[mk(True)], orelse=[mk(False)]), s2))
+                        elif need_res and s2.value is not None and isinstance(s2.value, ast.Name) and s2.value.id == res:
+                            pass          # `return t` where t already is the caller's target: nothing to assign
                         elif need_res and s2.value is not None:
                             out.append(ast.copy_location(ast.Assign(targets=[ast.Name(id=res, ctx=ast.Store())], value=s2.value), s2))
                         elif s2.value is not None and not isinstance(s2.value, (ast.Name, ast.Constant)):
@@ -1181,7 +1258,8 @@ def _is_pure_expr(e) -> bool:
 
 
 def _split_parallel_assignments(fn) -> bool:
-    """`a, b = x, y` with pure right-hand sides that do not mention a or b is `a = x; b = y`"""
+    """`a, b = x, y` is `a = x; b = y` when no right-hand side reads a target assigned before it (binding a local name has no effect
+    of its own, so evaluating x, binding a, evaluating y, binding b is the same as evaluating x, y and binding both)"""
     changed = False
     for par in [fn] + list(own_walk(fn)):
         for fld in ("body", "orelse", "finalbody"):
@@ -1193,7 +1271,7 @@ def _split_parallel_assignments(fn) -> bool:
                 st = blk[i]
                 if isinstance(st, ast.Assign) and len(st.targets) == 1 and isinstance(st.targets[0], ast.Tuple) and isinstance(st.value, ast.Tuple) \
                         and len(st.targets[0].elts) == len(st.value.elts) and all(isinstance(t, ast.Name) for t in st.targets[0].elts) \
-                        and all(_is_pure_expr(v) for v in st.value.elts):
+                        and not any(isinstance(x, (ast.Starred, ast.NamedExpr)) for v in st.value.elts for x in ast.walk(v)):
                     tn = {t.id for t in st.targets[0].elts}
                     tl = [t.id for t in st.targets[0].elts]
                     # sequential assignment gives the same result if no later right-hand side reads an earlier target
@@ -1466,11 +1544,16 @@ def _expand_conditional_expressions(fn) -> bool:
             i = 0
             while i < len(blk):
                 st = blk[i]
-                v = getattr(st, "value", None) if isinstance(st, (ast.Assign, ast.AnnAssign, ast.Return)) else None
+                v = getattr(st, "value", None) if isinstance(st, (ast.Assign, ast.AnnAssign, ast.Return, ast.Expr)) else None
+                awaited = False
+                if isinstance(v, ast.Await) and isinstance(v.value, ast.IfExp):
+                    v, awaited = v.value, True        # `await (A if c else B)`: the test is evaluated first, then one of the two is awaited
+                if isinstance(st, ast.Expr) and not awaited:
+                    v = None
                 if isinstance(v, ast.IfExp) and not (isinstance(st, ast.AnnAssign) and st.value is None):
                     def mk(val):
                         c = clone(st)
-                        c.value = val
+                        c.value = ast.copy_location(ast.Await(value=val), val) if awaited else val
                         if isinstance(c, ast.AnnAssign):
                             c = ast.copy_location(ast.Assign(targets=[c.target], value=val), st)
                         return c
